@@ -2,7 +2,7 @@
    Kept in Coq so that ml/c15_driver.ml contains no logic besides integer parsing / printing.
    NO proofs in this file; nothing here is used by a theorem. *)
 From Coq Require Import ZArith Bool List.
-From ZV.Index Require Import Window Reduce Overflow History.
+From ZV.Index Require Import Window Reduce Overflow History MtJobs.
 Import ListNotations.
 Local Open Scope Z_scope.
 
@@ -73,6 +73,15 @@ Definition dispatch (freq : bool) (opcode : Z) (args : list Z) : list Z :=
       let s := mkLdm w (nthz r 0) (skipn 4 r) in
       let '(s', corr) := ldm_chunk_step freq s (nthz r 1) (nthz r 2) (nthz r 3) in
       zopt corr :: w_out (ldm_window s') ++ [ldm_loadedDictEnd s'] ++ ldm_table s'
+  | 19 =>
+      (* ZSTDMT job counters: nextJobID doneJobID jobIDMask nbFlushCalls *)
+      let '(n, m) := mt_flush_until_stuck (Z.to_nat (nthz args 3)) (mkMtc (nthz args 0) (nthz args 1) (nthz args 2)) 0 in
+      [n; nextJobID m; doneJobID m; b2z (mt_table_full m); b2z (mt_firstJob m)]
+  | 20 =>
+      (* ZSTDMT serial LDM window: lit dict dictSize forceWindow src srcSize *)
+      let '(w1, lde) := mt_serial_ldm_load MT_SERIAL_DICT_LIMIT (nthz args 0) (nthz args 1) (nthz args 2) (z2b (nthz args 3)) in
+      let w2 := mt_serial_ldm_job w1 (nthz args 4) (nthz args 5) in
+      w_out w1 ++ [lde; b2z (window_exact w1)] ++ w_out w2 ++ [b2z (window_exact w2)]
   | _ => [-999]
   end.
 
